@@ -243,15 +243,16 @@ Proof. destruct s; reflexivity. Qed.
 
 Lemma run_script_specs cs : forall cmds st st',
   run_script cs st cmds = Ok st' ->
-  forall c, sem_of (st_specs st') c = extend cs cmds (sem_of (st_specs st) c) c.
+  forall c, sem_of (st_specs st') c = extend (cs ++ st_more st) cmds (sem_of (st_specs st) c) c.
 Proof.
   induction cmds as [|cm tl IH]; intros st st' Hrun c.
   - inversion Hrun; subst. unfold extend. cbn. rewrite app_nil_r. symmetry. apply spec_eta.
   - cbn [run_script] in Hrun.
     destruct (run_cmd cs st cm) as [st1 | | |] eqn:E; cbn [obind] in Hrun; try discriminate.
     rewrite (IH st1 st' Hrun c). unfold extend.
-    destruct cm as [ch t acts | ch m | ch m | text | f]; cbn [run_cmd] in E; cbn [den_entails den_start den_end].
-    + destruct (select_actors cs t) as [found|] eqn:Es; [|discriminate].
+    destruct cm as [more | ch t acts | ch m | ch m | text | f]; cbn [run_cmd] in E; cbn [den_entails den_start den_end].
+    + inversion E; subst. cbn [st_more st_specs]. rewrite app_assoc. reflexivity.
+    + destruct (select_actors (cs ++ st_more st) t) as [found|] eqn:Es; [|discriminate].
       apply select_actors_of in Es. rewrite <- Es.
       destruct found as [|a l].
       * inversion E; subst. cbn [map]. destruct (Byte.eqb ch c); reflexivity.
@@ -270,7 +271,7 @@ Qed.
 Theorem script_specs_denote cs cmds st :
   run_script cs init_state cmds = Ok st ->
   forall c, sem_of (st_specs st) c = den_specs cs cmds c.
-Proof. intros H c. rewrite (run_script_specs cs cmds init_state st H c). reflexivity. Qed.
+Proof. intros H c. rewrite (run_script_specs cs cmds init_state st H c). cbn [st_more init_state]. rewrite app_nil_r. reflexivity. Qed.
 
 (** denote_play only looks at the meaning of the scenes it meets *)
 Lemma denote_groups_ext sem1 sem2 tempo : (forall c, sem1 c = sem2 c) ->
